@@ -692,7 +692,7 @@ func record(r *evid.Rec, c kase, flags map[string]bool) {
 	r.Sample(c)
 }
 
-const rule = "rapid op lists over a token population held by two real Authenticators with different keys: gen(role in {consumer,creator,maintainer,master,unknown,'',Master,'consumer '}, expiry in -3600..-1 | 1..599 | 600..1e6) / refresh(token, expiry, via either authenticator) / tamper(bit flip, string or byte truncation, extension, insertion, substitution, nonce-ciphertext splice, re-encoding, random base64, random string) / enforce(token, path built from a policy row x variant {inside, /v1 inside, parent, child, other resource, sibling, /v2, deeper}, row method or standard method, directly and through PermissionCheckHandler). Oracle: provenance model (issuer, role, expired?) + pinned policy table read under two readings of '*' (asserted only where both agree). Non-trivial = the case enforces/refreshes an altered, aliased, expired or foreign-key token, or sees a denied request; distinct by hash of the case"
+const rule = "rapid op lists over a token population held by two real Authenticators with different keys: gen(role in {consumer,creator,maintainer,master,unknown,'',Master,'consumer '}, expiry in -3600..-1 | 1..599 | 600..1e6) / refresh(token, expiry, via either authenticator) / tamper(bit flip, string or byte truncation, extension, insertion, substitution, nonce-ciphertext splice, re-encoding, random base64, random string) / enforce(token, path built from a policy row x variant {inside, /v1 inside, parent, child, other resource, sibling, /v2, deeper}, row method or standard method, directly and through PermissionCheckHandler). Oracle: provenance model (issuer, role, expired?) + pinned policy table read under two readings of '*' (asserted only where both agree). Non-trivial = the case enforces/refreshes an altered, aliased, expired or foreign-key token, or sees a denied request; distinct by hash of the case. Concurrent variant: 2-4 goroutines x 1-8 requests (Enforce or RefreshKey with live / long-expired tokens of the four roles, 8 paths, 3 methods) repeated 20-100 times against one authenticator; oracle: verdict equals the verdict of the same request asked alone, expired tokens never honoured; non-trivial there = at least two goroutines and two different tokens; also run under the race detector"
 
 func TestC35_Model(t *testing.T) {
 	r := evid.Get(id)
